@@ -112,7 +112,7 @@ impl Property for C05 {
         "exploration"
     }
     fn rule(&self) -> String {
-        "A case = secure server 0 (plus server 1 with the same private key and protocol but its own challenge key), 3-8 identities/addresses (server client limit 1-4, so tables sized from it fill up) holding tokens that are good, sealed with a foreign key, for a foreign protocol id (one bit away from the server's, in any byte), listing only a wrong host, a mixed host list or only the server's second public address (valid), with expiry 1-4 s or 600 s; honest handshake steps with loss in either direction; the server clock stepped by 1-1500 ms around every expiry second; adversarial steps: a request presented from another address (stolen token), single-field corruptions of a request (a bit of the sealed token, the public expiry +-1 / +1000, protocol id - including the public field of a foreign-protocol token rewritten to the server's id -, version, nonce), cross-use - a response from a pending address sealed with that address's own key but echoing a challenge issued to another session (other id, same id with other user data, other server) -, a response replayed from another address, bit-flipped responses. Oracle at every ClientConnected{id, addr, user_data} (and for client_addr / user_data / clients_id right after): the trigger was an unmodified response from addr; addr had been challenged for an unmodified request whose token is sealed under this server's key and protocol, lists a public address, was unexpired (server second <= expiry when connecting, < expiry when requesting) and was first used from addr; id and user data are exactly those sealed in that token; the echoed challenge was issued by this server for id. Non-trivial: >= 1 connection established and >= 1 adversarial step after a challenge existed. Distinct = hash of the decoded operation trace.".into()
+        "A case = secure server 0 (plus server 1 with the same private key and protocol but its own challenge key), 3-8 identities/addresses (server client limit 1-4, so tables sized from it fill up) holding tokens that are good, sealed with a foreign key, for a foreign protocol id (one bit away from the server's, in any byte), listing only wrong hosts (another host, or near misses: a public address's ip with another port, the ip of one public address with the port of the other; the server has an IPv4 and an IPv6 public address with different ports), a mixed host list or only the server's second public address (valid), with expiry 1-4 s or 600 s; honest handshake steps with loss in either direction; the server clock stepped by 1-1500 ms around every expiry second; adversarial steps: a request presented from another address (stolen token), single-field corruptions of a request (a bit of the sealed token, the public expiry +-1 / +1000, protocol id - including the public field of a foreign-protocol token rewritten to the server's id -, version, nonce), cross-use - a response from a pending address sealed with that address's own key but echoing a challenge issued to another session (other id, same id with other user data, other server) -, a response replayed from another address, bit-flipped responses. Oracle at every ClientConnected{id, addr, user_data} (and for client_addr / user_data / clients_id right after): the trigger was an unmodified response from addr; addr had been challenged for an unmodified request whose token is sealed under this server's key and protocol, lists a public address, was unexpired (server second <= expiry when connecting, < expiry when requesting) and was first used from addr; id and user data are exactly those sealed in that token; the echoed challenge was issued by this server for id. Non-trivial: >= 1 connection established and >= 1 adversarial step after a challenge existed. Distinct = hash of the decoded operation trace.".into()
     }
     fn assumptions(&self) -> Vec<String> {
         vec!["'first used from' = the first address whose request with that token this server answered".into(), "the server is updated before every presentation, so expiry is judged against its current second".into()]
@@ -140,13 +140,23 @@ impl Property for C05 {
             let expire_seconds = if ctx.src.chance(90) { 1 + ctx.src.below(4) as u64 } else { 600 };
             let second_server = ctx.src.chance(50);
             let addrs = match flaw {
-                Flaw::WrongHost => vec![server_addr(5)],
+                // another host altogether, or a near miss: same ip as a public address with another port, ip of one public address with
+                // the port of the other
+                Flaw::WrongHost => {
+                    let nm = near_miss_addrs(0);
+                    match ctx.src.below(4) {
+                        0 => vec![server_addr(5)],
+                        1 => vec![nm[ctx.src.below(4)]],
+                        2 => nm.to_vec(),
+                        _ => vec![server_addr(5), nm[ctx.src.below(4)]],
+                    }
+                }
                 Flaw::MixedHost => vec![server_addr(5), server_addr(0)],
                 _ if second_server => vec![server_addr(1), server_addr(0)],
                 // the server's second public address alone is as good as the first
                 _ if ctx.src.chance(40) => {
                     ctx.label("second_public_address");
-                    vec![server_addr(20)]
+                    vec![server_alt_addr(0)]
                 }
                 _ => vec![server_addr(0)],
             };
@@ -217,7 +227,7 @@ impl Property for C05 {
                     if let Some(did) = nw.client_update(c, dt) {
                         let d = nw.pool[did].clone();
                         if !lost_up {
-                            if d.to == server_addr(0) || d.to == server_addr(20) {
+                            if d.to == server_addr(0) || d.to == server_alt_addr(0) {
                                 let t = m.client_tok[c];
                                 let meta = match d.kind {
                                     0 => Meta::Request { tok: t, modified: false },
